@@ -57,7 +57,7 @@ fn run_registry(a: &Args) -> Report {
         let (clock, mock) = quanta::Clock::mock();
         mock.increment(Duration::from_secs(1000));
         let bits = r.below(8) as u8;
-        let timeout_ns: Option<u64> = if r.chance(1, 8) { None } else { Some(*r.pick(&[1u64, 10, 1000, 1_000_000_000, u64::MAX / 2, u64::MAX])) };
+        let timeout_ns: Option<u64> = if r.chance(1, 8) { None } else { Some(*r.pick(&[0u64, 1, 10, 1000, 1_000_000_000, u64::MAX / 2, u64::MAX])) };
         let recency: Recency<Key> = Recency::new(clock.clone(), mask_of(bits), timeout_ns.map(to_timeout));
         let reg: Registry<Key, GenerationalAtomicStorage> = Registry::new(GenerationalAtomicStorage::atomic());
         let nkeys = 1 + r.usize(3);
@@ -212,7 +212,7 @@ fn run_exporter(a: &Args) -> Report {
         let (clock, mock) = quanta::Clock::mock();
         mock.increment(Duration::from_secs(1000));
         let bits = r.below(8) as u8;
-        let timeout_ns: Option<u64> = if r.chance(1, 8) { None } else { Some(*r.pick(&[10u64, 1000, 1_000_000_000, u64::MAX / 2, u64::MAX])) };
+        let timeout_ns: Option<u64> = if r.chance(1, 8) { None } else { Some(*r.pick(&[0u64, 10, 1000, 1_000_000_000, u64::MAX / 2, u64::MAX])) };
         let mut b = PrometheusBuilder::new().idle_timeout(mask_of(bits), timeout_ns.map(to_timeout));
         if r.chance(1, 2) {
             b = b.add_global_label("env", "prod");
